@@ -125,7 +125,7 @@ class HistoryGen:
         self.w = {'axiom': rng.choice([1, 2, 4]), 'pattern': rng.choice([1, 2, 3]), 'prim': rng.choice([0, 1, 2]),
                   'inst': rng.choice([2, 4, 6]), 'instpat': rng.choice([1, 1, 2]), 'mp': rng.choice([2, 4, 6]),
                   'gen': rng.choice([0, 1, 3]), 'save': rng.choice([1, 2]), 'load': rng.choice([1, 2]),
-                  'pop': rng.choice([0, 1]), 'publish': rng.choice([0, 1, 2])}
+                  'pop': rng.choice([0, 1]), 'publish': rng.choice([0, 1, 2]), 'genprobe': rng.choice([0, 1, 2])}
 
     # ---- plumbing
     # the tracker under test does not pop on publish_*: entries at or below a published one are
@@ -199,6 +199,40 @@ class HistoryGen:
             self.op(['save'], [OP['Save']])
             if rng.random() < 0.5:
                 self.op(['pop'], [OP['Pop']])
+
+    def op_gen_probe(self):
+        """exists_generalization over theorems whose consequent contains pending substitutions,
+        binders and constrained metavariables (every arm of the toolkit's freshness test), with the
+        variable chosen regardless of freshness in adversarial histories."""
+        rng, k = self.rng, self.k
+        x = rng.choice(k.evars)
+        y = rng.choice([e for e in k.evars if e != x] or [(x + 1) % 250])
+        X = x if x in (0, 1, 2) else rng.choice(k.svars)          # same *number* as the element variable where possible
+        m, mf = T.mv(3), T.mv(3, ef=(x,))
+        plugs = [T.imp(T.evar(x), T.evar(y)), T.app(T.evar(x), T.sym(0)), T.evar(y), T.evar(x), T.sym(0), T.mv(4), T.mv(4, ef=(x,)), T.ex(x, T.evar(x)), T.svar(X)]
+        fam = [T.esub(m, x, rng.choice(plugs)), T.esub(m, y, rng.choice(plugs)), T.ssub(m, X, rng.choice(plugs)), T.ssub(mf, X, rng.choice(plugs)),
+               T.esub(T.esub(m, y, T.evar(x)), x, rng.choice(plugs)), T.ssub(T.esub(m, y, T.sym(0)), X, rng.choice(plugs)), T.ex(x, m), T.ex(y, T.esub(m, x, rng.choice(plugs))),
+               T.mu(X, T.app(T.svar(X), T.evar(x))), T.mu(X, T.app(T.svar(X), m)), mf, T.imp(mf, T.esub(mf, y, T.evar(x))), N(NEG_BODY, T.ssub(m, X, rng.choice(plugs)))]
+        P = rng.choice(fam)
+        try:
+            pe = expand(P)
+        except T.Abort:
+            return
+        if not T.wf_deep(pe):
+            return
+        Q = rng.choice([T.sym(0), T.evar(y), T.mv(4, ef=(x,)), T.BOT])
+        self.op_pattern(P); self.op_pattern(Q)           # delta = {0: P, 1: Q}
+        self.op(['prop1'], [OP['Prop1']])
+        self.op(['instantiate', [0, 1]], [OP['Instantiate'], 2, 1, 0])          # |- P -> (Q -> P)
+        cons = T.imp(expand(Q), pe)
+        cand = [x, y] + list(k.evars)
+        if rng.random() > self.p_bad * 2:
+            cand = [v for v in cand if T.e_fresh(cons, v)]
+            if not cand:
+                self.op(['pop'], [OP['Pop']])
+                return
+        v = rng.choice(cand)
+        self.op(['gen', v], [OP['Generalization'], v])
 
     def near_miss(self, t):
         """A term that differs from the extended term t in one small way (for adversarial modus ponens)."""
@@ -487,6 +521,7 @@ class HistoryGen:
                 else: self.op_instpat()
             elif o == 'mp': self.op_mp()
             elif o == 'gen': self.op_gen()
+            elif o == 'genprobe': self.op_gen_probe()
             elif o == 'save':
                 if st: self.op(['save'], [OP['Save']])
             elif o == 'load':
